@@ -318,8 +318,11 @@ class Check:
         if os.path.exists(kf_path):
             known = [k for k in json.load(open(kf_path)).get("findings", [])
                      if k.get("property") == self.pid and k.get("status") == "open"]
-        # A broken obligation with no concrete failing input is still a violation.
-        if self.broken and not any(v["found_input"] for v in self.violations):
+        # A broken obligation with no concrete failing input is still a violation
+        # (inputs that only reproduce an open known finding do not count as found).
+        def _is_known(v):
+            return any(re.search(k["match"], v["key"]) for k in known)
+        if self.broken and not any(v["found_input"] and not _is_known(v) for v in self.violations):
             self.violations.append({
                 "key": "broken:" + ";".join(sorted(set(
                     str(b.get("theorem") or b.get("what")) for b in self.broken))),
